@@ -17,6 +17,7 @@ fn main() {
     match sub {
         "cipher" => cipher::main(&args[2..]),
         "conn" => conn::main(&args[2..]),
+        "conn-timed" => conn::main_timed(&args[2..]),
         "hash" => hash::main(&args[2..]),
         "rl" => rl::main(&args[2..]),
         "wire" => wire::main(&args[2..]),
